@@ -632,6 +632,44 @@ def main():
                                            broken='correspondence: code point classes'), 'unicode classes differ from the model', no_input=True)
                 stats['codepoint_class_lines'] += 1
                 idx += 1
+            # the Python IDL reader of tools/gen/gen_schemas.py (trusted translator behind coq/gen/Schemas.v)
+            # against idl.Parse on every checked-in schema: same structs, field order, type kinds, optional flags
+            if PROP == 'C12':
+                sys.path.insert(0, os.path.join(vlib.VERIF, 'tools', 'gen'))
+                try:
+                    import gen_schemas
+                except ImportError:
+                    gen_schemas = None
+                PN = {v: k for k, v in (gen_schemas.PRIMS.items() if gen_schemas else [])}
+
+                def pyt(ty):
+                    if ty['k'] == 'prim':
+                        return 'enum:' + ty['enum'] if 'enum' in ty else 'prim:' + PN[ty['p']]
+                    if ty['k'] == 'array':
+                        return 'arr[' + pyt(ty['elem']) + ']'
+                    return ('struct:' if ty['k'] == 'struct' else 'map:') + ty['name']
+                golines = [go_out[2 * i + 1] for i, (c, _) in enumerate(texts) if c == 'checked_in_file']
+                for (name, b), line in zip(corpus, golines):
+                    g = fields_of(line)
+                    if g['head'] != 'ok' or gen_schemas is None:
+                        continue
+                    try:
+                        py = gen_schemas.parse(b.decode('utf-8'))
+                    except Exception as e:
+                        verdict.violation(dict(schema=name, error=str(e), broken='translator gen_schemas.py cannot read a schema idl.Parse accepts'),
+                                          f'{name}: tools/gen/gen_schemas.py rejects it', no_input=True)
+                        continue
+                    gs = parse_canon(g['S'])
+                    pys = {x['name']: x for x in py['structs']}
+                    for sn, st in gs['structs'].items():
+                        mine = [(f['name'], pyt(f['type']), '1' if f['optional'] else '0') for f in pys.get(sn, {'fields': []})['fields']]
+                        theirs = [(fn, re.sub(r'@[^\]:,]*', '', re.sub(r'\(rec=[01P]\)', '', ty)), opt) for fn, ty, opt in st['fields']]
+                        stats['translator_structs_compared'] += 1
+                        if mine != theirs:
+                            counters['disagree_translator'] += 1
+                            verdict.violation(dict(schema=name, struct=sn, idl_parse=theirs, gen_schemas=mine,
+                                                   broken='translator gen_schemas.py disagrees with idl.Parse'),
+                                              f'{name}: struct {sn} read differently by tools/gen/gen_schemas.py', no_input=True)
             # generated wire schema bytes of checked-in generated code (C13)
             if PROP == 'C13':
                 scraped = {}
